@@ -310,7 +310,8 @@ func c16RunOne(t *testing.T, rng *rand.Rand, tw *vfTraceWriter, trNo int, cfg c1
 		}
 		nreqTotal += nr
 	}
-	tw.Emit(vfRec{"ev": "init", "nc": cfg.nconns, "nctx": cfg.nconns + nreqTotal + 2, "maxreq": cfg.maxreq, "maxwr": 3,
+	// the constants of the trace spec come from the first init line of a file: use the per-file maxima
+	tw.Emit(vfRec{"ev": "init", "nc": 2, "nctx": 2 + 2*cfg.maxreq + 2, "maxreq": cfg.maxreq, "maxwr": 3, "nconns": cfg.nconns,
 		"conc": cfg.conc, "tr": trNo, "timeout_us": int(cfg.timeout / time.Microsecond)})
 	VerifHook = rec.hook
 	defer func() { VerifHook = nil }()
